@@ -4,21 +4,24 @@ alpha-normalised body hash) whose decomposition the rules were confirmed against
 re-confirmed against a new pinned tree."""
 import ast, json, os, sys
 sys.path.insert(0, "/verif")
-from sa.normalise import body_hash
+from sa.normalise import body_hash, local_names
 root = os.path.join(sys.argv[1] if len(sys.argv) > 1 else "/repo", "src", "bumpver")
 out = {}
 out_sigs = {}
+out_names = {}
 for fn in sorted(os.listdir(root)):
     if not fn.endswith(".py"):
         continue
     tree = ast.parse(open(os.path.join(root, fn)).read())
     names = {}
     sigs = {}
+    lnames = {}
     def scan(stmts, prefix=""):
         for st in stmts:
             if isinstance(st, (ast.FunctionDef, ast.AsyncFunctionDef)):
                 names[prefix + st.name] = body_hash(st)
                 sigs[prefix + st.name] = [x.arg for x in st.args.posonlyargs + st.args.args + st.args.kwonlyargs]
+                lnames[prefix + st.name] = local_names(st)
             elif isinstance(st, ast.ClassDef):
                 names[st.name] = ""
                 scan(st.body, st.name + ".")
@@ -27,6 +30,8 @@ for fn in sorted(os.listdir(root)):
     scan(tree.body)
     out[fn[:-3]] = names
     out_sigs[fn[:-3]] = sigs
+    out_names[fn[:-3]] = lnames
 json.dump(out, open("/verif/sa/baseline_functions.json", "w"), indent=1, sort_keys=True)
 json.dump(out_sigs, open("/verif/sa/baseline_signatures.json", "w"), indent=1, sort_keys=True)
+json.dump(out_names, open("/verif/sa/baseline_names.json", "w"), indent=1, sort_keys=True)
 print({k: len(v) for k, v in out.items()})
